@@ -291,13 +291,23 @@ def judge_diag(inp, obs, lr):
         want = expected_signs(inp["sigs"][u], inp["mode"], inp["reverse"])
         if signs != want:
             return {"expected": {"signs": want}, "observed": {"signs": signs}, "tags": dict(tags, order=True), "property_failure": True}
-        # by value: column i of W is column order[i] of U / sqrt|eig|
-        order = oo["ok"]
+        # by value, modulo ties (np.argsort is not stable): column i of W is column perm[i] of U / sqrt|eig| for a
+        # permutation perm along which the model's sort key takes the same values as along the model's order
+        order, key = oo["ok"]["order"], [F(x) for x in oo["ok"]["key"]]
         e, U = np.array(obs["eigs"][u]), np.array(obs["U"][u])
-        Wm = (U / np.sqrt(np.abs(e)))[:, order]
-        Wim = (np.sqrt(np.abs(e))[:, None] * U.T)[order, :]
-        if not (close(np.array(obs["W"][u]), Wm, 1e-10) and (not inp["with_inverse"] or close(np.array(obs["Winv"][u]), Wim, 1e-10))):
-            return {"expected": {"order": order, "W": Wm.tolist()}, "observed": obs["W"][u], "tags": dict(tags, by_value=True)}
+        cand = U / np.sqrt(np.abs(e))
+        cinv = np.sqrt(np.abs(e))[:, None] * U.T
+        Wo, Wio = np.array(obs["W"][u]), np.array(obs["Winv"][u])
+        perm = []
+        for i in range(nn):
+            js = [j for j in range(nn) if close(Wo[:, i], cand[:, j], 1e-10) and (not inp["with_inverse"] or close(Wio[i], cinv[j], 1e-10))]
+            if len(js) != 1:
+                return {"expected": "every column of W is one column of U·D (and the same row of Dinv·Uᵀ)", "observed": {"column": i, "matches": js},
+                        "tags": dict(tags, by_value=True)}
+            perm.append(js[0])
+        if sorted(perm) != list(range(nn)) or [key[j] for j in perm] != [key[j] for j in order]:
+            return {"expected": {"order (modulo ties)": order, "keys": [str(key[j]) for j in order]}, "observed": {"order": perm},
+                    "tags": dict(tags, by_value=True, order=True)}
     return None
 
 
@@ -331,10 +341,20 @@ def judge_diag_exact(inp, obs, lr):
         return {"expected": "model answer", "observed": lr[0], "tags": dict(tags, driver_err=lr[0]["err"])}
     Wm, Wim = Q.decf(lr[0]["ok"]["W"]), Q.decf(lr[0]["ok"]["Winv"])
     W, Wi = np.array(obs["W"]), np.array(obs["Winv"])
+    B = Q.decf(inp["B"])
+    sgn = np.sign(np.diag(Wm.T @ B @ Wm))
+    perm = []
     for j in range(inp["n"]):
-        if not (close(W[:, j], Wm[:, j], 1e-9) and close(Wi[j], Wim[j], 1e-9)) and \
-           not (close(-W[:, j], Wm[:, j], 1e-9) and close(-Wi[j], Wim[j], 1e-9)):
+        ks = [k for k in range(inp["n"]) if (close(W[:, j], Wm[:, k], 1e-9) and close(Wi[j], Wim[k], 1e-9)) or
+              (close(-W[:, j], Wm[:, k], 1e-9) and close(-Wi[j], Wim[k], 1e-9))]
+        if len(ks) != 1:
             return {"expected": {"column": j, "W": Wm.tolist()}, "observed": W.tolist(), "tags": tags}
+        perm.append(ks[0])
+    # np.argsort is not stable: with "minkowski" keys the columns of one sign may come in any order
+    ok = sorted(perm) == list(range(inp["n"])) and all(sgn[k] == sgn[j] for j, k in enumerate(perm)) and \
+        (inp["mode"] == "minkowski" or perm == list(range(inp["n"])))
+    if not ok:
+        return {"expected": {"W (modulo ties)": Wm.tolist()}, "observed": {"W": W.tolist(), "matching": perm}, "tags": dict(tags, order=True)}
     return None
 
 
